@@ -224,7 +224,11 @@ impl<'r> B<'r> {
         match &op {
             // `multiset_delta()` on the push side does not type-check (E0282 inside the
             // macro-generated closure), so it is always put at the head of its own subgraph.
-            Op::MultisetDelta => ins[0] = self.handoff(ins[0]),
+            Op::MultisetDelta => {
+                ins[0] = self.handoff(ins[0]);
+                // nobody else may read that handoff (a tee would put multiset_delta on the push side)
+                self.cons[ins[0].0][0] = 99;
+            }
             Op::Handoff if self.hoff_like(ins[0]) => ins[0] = (self.add_raw(Op::Identity, vec![ins[0]]), 0),
             Op::RefHandoff(_) | Op::RefSingleton(_) if ins[1].0 < self.nodes.len() && self.hoff_like(ins[1]) => {
                 ins[1] = (self.add_raw(Op::Identity, vec![ins[1]]), 0)
